@@ -237,7 +237,7 @@ class Report(object):
         self.assumptions = []
         self.counts = {}
         self.floors = {}
-        self.selftests = []     # (name, fired?)
+        self.selftests = []     # (name, as expected?, kind)
         self.t0 = _T0
         self.current_rule = None
 
@@ -372,8 +372,8 @@ def finish(report, program, explanation, not_decided, trusted=None,
         exhaustive=bool(exhaustive),
         notes=report.notes,
         known_findings_reported=len(old),
-        selftests=[dict(variant=n, fired=bool(fd)) for n, fd
-                   in report.selftests],
+        selftests=[dict(variant=n, kind=k, as_expected=bool(fd))
+                   for n, fd, k in report.selftests],
     )
     if extra:
         coverage.update(extra)
@@ -399,8 +399,10 @@ def finish(report, program, explanation, not_decided, trusted=None,
             rule, report.counts[rule],
             ("  (floor %d)" % report.floors[rule])
             if rule in report.floors else ""))
-    for n, fd in report.selftests:
-        print("   selftest %-40s %s" % (n, "fired" if fd else "SILENT"))
+    for n, fd, k in report.selftests:
+        word = ("fired" if fd else "SILENT") if k == "breaking" else \
+            ("quiet" if fd else "FALSE-ALARM")
+        print("   selftest %-40s %s" % (n, word))
     for l in lines:
         print(l)
     sys.stdout.flush()
